@@ -7,6 +7,8 @@ REPO = os.environ.get('VERIF_REPO', '/repo')
 COQ = os.path.join(ROOT, 'coq')
 BIN = os.path.join(ROOT, 'bin')
 WORK = os.path.join(ROOT, 'work')
+# evidence describes /repo: a run against any other tree (seeded changes in a scratch worktree) keeps its record apart
+EVIDENCE = os.path.join(ROOT, 'evidence') if os.path.realpath(REPO) == '/repo' else os.path.join(WORK, 'evidence_other_tree')
 NCPU = os.cpu_count() or 4
 
 COQ_FLAGS = []
@@ -22,7 +24,7 @@ TRUSTED_BASE = [
     "Coq 8.16.1 kernel (coqc); vm_compute used for finite facts and for running the model; native_compute not used",
     "axioms: none (Print Assumptions under every property theorem: Closed under the global context)",
     "hand-written Gallina model of the Go code (coq/Model/*.v), tied to /repo by this run's differential correspondence and by the regenerated Generated/*.v",
-    "translator tools/gen_tables (go/ast, syntax only)",
+    "translator tools/gen_tables: data items from the report of the library built from the working tree (harness dump), code-shaped facts from go/ast of the entry points or, failing that, from probing the public API; Generated/provenance.json records which",
     "translator tools/gen_ssa (golang.org/x/tools v0.29.0 go/packages + go/ssa): value-flow edge rules per SSA instruction, control dependence (post-dominators), source / barrier / output-function classification are implemented there and are trusted to over-approximate explicit data flow (field- and index-insensitive, flow- and context-insensitive, dynamic calls resolved by signature; table look-ups keyed by data and error values reported by code outside the analysed packages are not tracked)",
     "extraction: ExtrOcamlBasic only (Extract Inductive bool/option/unit/list/prod/sumbool/sumor to OCaml built-ins; no Extract Constant), OCaml driver coq/Extract/runner/run.ml, ocamlfind ocamlopt; a slice of every run is re-evaluated by vm_compute inside Coq",
     "Go toolchain selected by /repo/go.mod, the harness /verif/harness (build tag verif hooks in /repo/verif_hooks.go)",
@@ -618,7 +620,7 @@ def main(argv):
         tier = 'quick'
     t0 = time.time()
     os.makedirs(WORK, exist_ok=True)
-    os.makedirs(os.path.join(ROOT, 'evidence'), exist_ok=True)
+    os.makedirs(EVIDENCE, exist_ok=True)
     with Lock():
         log = open(os.path.join(WORK, 'check_%s.log' % pid), 'w')
         try:
@@ -706,7 +708,7 @@ def run_check(pid, tier, seed, replay, log, t0):
           'assumptions': ['the model is the code as far as the correspondence of this run exercised it',
                           'Go standard library and runtime behave as transcribed'] + extra.get('assumptions', []),
           'wall_s': round(time.time() - t0, 2), 'violations': len(violations)}
-    with open(os.path.join(ROOT, 'evidence', pid + '.json'), 'w') as f:
+    with open(os.path.join(EVIDENCE, pid + '.json'), 'w') as f:
         json.dump(ev, f, indent=1)
     for h in sorted(set(known_hits)):
         print('KNOWN-FINDING: property=%s %s' % (pid, h))
